@@ -326,6 +326,12 @@ def _allna_group_in_partition(pdf, by, parts, col="f"):
     return False
 
 
+def _allna_partition(pdf, col, parts):
+    b = np.cumsum((0,) + tuple(parts))
+    na = pdf[col].isna().to_numpy()
+    return any(b1 > b0 and na[b0:b1].all() for b0, b1 in zip(b[:-1], b[1:]))
+
+
 FIRSTLAST_SPECS = ("listfl", "dict2")
 
 
@@ -349,8 +355,8 @@ def known_class(case, failure, pdf):
     if op == "nunique":
         if failure == "wrong-value" and ((by == "kn" and g.get("dropna") is False) or (by == "kc" and g.get("observed") is False)):
             return ("nunique", "dropna-observed-false-ignored")
-        if failure == "wrong-order" and isinstance(by, tuple) and g.get("sort") is True:
-            return ("nunique", "sort-true-multi-key")
+        if failure == "wrong-order" and g.get("sort") is True:
+            return ("nunique", "sort-true")
     if op == "size" and so_gt1 and failure == "wrong-value":
         return ("size", "split-out-name")
     if failure == "wrong-value" and disk and (
@@ -359,8 +365,16 @@ def known_class(case, failure, pdf):
         return ("shuffle-disk", "row-order")
     if op in ("idxmin", "idxmax") and failure == "dask-raises:ValueError" and uses_f and _allna_group_in_partition(pdf, by, parts):
         return ("idxminmax", "all-na-group-in-partition")
-    if op == "value_counts" and failure == "dask-raises:KeyError" and empty and so_gt1:
-        return ("value_counts", "empty-partition-split-out")
+    if op in ("idxmin", "idxmax") and failure == "wrong-value" and spans_partitions(pdf, by, parts):
+        return ("idxminmax", "group-spans-partitions")
+    if op == "shift" and failure == "dask-raises:ValueError" and any(b in ("@series", "@par") for b in (by if isinstance(by, tuple) else (by,))):
+        return ("shift", "series-key-duplicate-index")
+    if op == "value_counts":
+        blank = empty or (by == "kn" and _allna_partition(pdf, "kn", parts))  # a partition whose keys are all NaN gives an empty chunk
+        if blank and failure in ("dask-raises:KeyError", "dask-raises:AttributeError") and (so_gt1 or "split_every" in c):
+            return ("value_counts", "empty-chunk")
+        if by == "kn" and g.get("dropna") is False and failure == "wrong-value" and _allna_partition(pdf, "kn", parts):
+            return ("value_counts", "dropna-false-all-nan-key-partition")
     if op in ("cumsum", "cumprod") and failure == "wrong-value" and uses_f:
         return ("cumsumprod", "nan-values")
     if op == "cumcount" and failure == "wrong-value" and empty:
